@@ -1,11 +1,14 @@
 """C11 — streamable HTTP session ids (DESIGN.md sections 5.6, 6 "C11", 9 lead 8; pattern P2).
 
 model     HttpSess.tla / HttpSessMC.tla: state machine of the handler's session table (owner, refs, idle timer with
-          the fired-but-not-yet-run window, graceful close while a tool runs, stateless mode), checked exhaustively
+          the fired-but-not-yet-run window, graceful close while a tool runs, stateless mode) and of its environment
+          (the configured EventStore entering / leaving the fault modes nopurge and down), checked exhaustively
           by TLC on bounded configurations (+ reachability witnesses)
 generate  (a) transition cover (tools/graphwalk.py) of the settled, reduced state graph dumped by TLC; self-loop
-          transitions (refused / read-only requests) are woven into the cover paths; (b) TLC -simulate behaviours of
-          the full model, including requests issued at exactly the idle deadline (AdvanceTie)
+          transitions (refused / read-only requests) are woven into the cover paths; the graph of one session x
+          store mode is covered edge by edge (every termination path and every request on the terminated id in
+          every store mode); (b) TLC -simulate behaviours of the full model, including requests issued at exactly
+          the idle deadline (AdvanceTie), without and with store faults
 replay    harness/mcp/c11_httpsess_test.go: real StreamableHTTPHandler (+ auth.RequireBearerToken), no sockets,
           testing/synctest virtual time
 judge     HttpSessMon.tla (property only -> verdict), HttpSessTrace.tla (strict replay of HttpSess -> drift)
@@ -17,7 +20,7 @@ import vlib, graphwalk
 PID = "C11"
 HARNESS = ["mcp/c11_httpsess_test.go"]
 WITNESSES = ["NeverTimedOut", "NeverClosing", "NeverTieAdmit", "NeverParked", "NeverForeign", "NeverStale",
-             "NeverCbClosing"]
+             "NeverCbClosing", "NeverFaultDelete", "NeverNoStream"]
 
 
 def wdir():
@@ -61,7 +64,7 @@ def model_check(v, tier):
         return w, vlib.run_tlc("HttpSessMC", "wit.cfg", workdir=wdir(), extra_files={"wit.cfg": txt}, workers=1,
                                timeout=600, heap_gb=2)
 
-    with ThreadPoolExecutor(max_workers=4) as ex:
+    with ThreadPoolExecutor(max_workers=6) as ex:
         mcs = list(ex.map(mc, jobs))
         wits = list(ex.map(wit, WITNESSES))
     for cfg, res in mcs:
@@ -80,7 +83,7 @@ def model_check(v, tier):
 # generation
 
 
-def cover_histories(v, cfg, T, stateless, seed, full, prefix, budget_factor=1.0):
+def cover_histories(v, cfg, T, stateless, seed, full, prefix, budget_factor=1.0, fault=False):
     """Transition cover of the dumped graph. full: every edge; otherwise every state-changing edge, with a seeded
     sample of the self-loop edges woven in at the nodes where they are enabled."""
     wd = wdir()
@@ -122,14 +125,14 @@ def cover_histories(v, cfg, T, stateless, seed, full, prefix, budget_factor=1.0)
     v.cov.setdefault("graphs", []).append({"config": cfg, "nodes": len(edges), "edges": total_all,
                                            "state_changing_edges": total_all - nself, "covered_edges": total + woven if not full else total,
                                            "paths": len(paths)})
-    return [{"id": "%s%d" % (prefix, i), "timeout": T, "stateless": stateless,
+    return [{"id": "%s%d" % (prefix, i), "timeout": T, "stateless": stateless, "faultstore": fault,
              "ops": [[opname(n), a] for (n, a) in p]} for i, p in enumerate(paths)]
 
 
 _hist_item = re.compile(r'<<"(\w+)", "(\w*)", (-?\d+), "(\w*)">>')
 
 
-def sim_histories(v, cfg_txt, T, stateless, num, depth, seed, prefix):
+def sim_histories(v, cfg_txt, T, stateless, num, depth, seed, prefix, fault=False):
     wd = wdir()
     sim = os.path.join(wd, "sim")
     os.makedirs(sim)
@@ -155,13 +158,15 @@ def sim_histories(v, cfg_txt, T, stateless, num, depth, seed, prefix):
                 ops.append(["Post", [a1, a2, a3]])
             elif name in ("Get", "Delete"):
                 ops.append([name, [a2, a3]])
+            elif name == "SetStore":
+                ops.append([name, [a1]])
             else:
                 ops.append([name, [a2]])
         key = json.dumps(ops)
         if not ops or key in seen:
             continue
         seen.add(key)
-        rows.append({"id": "%s%d" % (prefix, i), "timeout": T, "stateless": stateless, "ops": ops})
+        rows.append({"id": "%s%d" % (prefix, i), "timeout": T, "stateless": stateless, "faultstore": fault, "ops": ops})
     shutil.rmtree(sim, ignore_errors=True)
     return rows
 
@@ -172,17 +177,18 @@ def sim_histories(v, cfg_txt, T, stateless, num, depth, seed, prefix):
 def abstract_sig(inv, e):
     cls = {0: "noid", -1: "unknown"}.get(e.get("a2"), "id")
     op = e.get("op")
+    st = "@store=%s" % e.get("store") if e.get("store") in ("nopurge", "down") else ""
     if op == "Post":
-        return "%s:Post(%s,%s,%s)" % (inv, e.get("a1"), cls, e.get("a3"))
+        return "%s:Post(%s,%s,%s)%s" % (inv, e.get("a1"), cls, e.get("a3"), st)
     if op in ("Get", "Delete"):
-        return "%s:%s(%s,%s)" % (inv, op, cls, e.get("a3"))
+        return "%s:%s(%s,%s)%s" % (inv, op, cls, e.get("a3"), st)
     if op in ("Advance", "EndPost", "Close", "Drain"):
-        return "%s:%s%s" % (inv, op, "@tie" if e.get("pre") else "")
-    return "%s:%s" % (inv, op)
+        return "%s:%s%s%s" % (inv, op, "@tie" if e.get("pre") else "", st)
+    return "%s:%s%s" % (inv, op, st)
 
 
 def brief(r):
-    return [r.get("op"), r.get("a1"), r.get("a2"), r.get("a3"), "t=%s" % r.get("t"),
+    return [r.get("op"), r.get("a1"), r.get("a2"), r.get("a3"), "t=%s" % r.get("t"), "store=%s" % r.get("store"),
             [[d["m"], d["body"], d["tgt"], d["user"], d["status"], d["sid"]] for d in r.get("done", [])],
             "sess=%s" % r.get("sess")]
 
@@ -197,6 +203,9 @@ def run(tier, seed, replay):
         "tool are executed but not judged",
         "'failed initialize' is an initialize refused by a receiving middleware; GET streams are disconnected by the "
         "client as soon as they are established",
+        "store faults are those of a scripted EventStore (a MemoryEventStore behind it) switched between steps: nopurge = "
+        "SessionClosed (and, by a seeded choice, Append) returns an error, down = Open, Append, After and SessionClosed "
+        "return an error; a POST answered 5xx is taken as possible (not certain) activity for the idle timeout",
         "TLC exhaustive results are for the stated small constants (2-3 ids, timeout 2-3 ticks, 2 slow POSTs)"]
     out = vlib.outdir(PID)
     phase, tmark = {}, [time.time()]
@@ -210,7 +219,8 @@ def run(tier, seed, replay):
     for stale in glob.glob(os.path.join(out, "violation-*.json")):
         os.remove(stale)  # violation files describe the current run only
     if replay:
-        rows = [{"id": "replay", "timeout": rep["timeout"], "stateless": rep["stateless"], "ops": rep["ops"]}]
+        rows = [{"id": "replay", "timeout": rep["timeout"], "stateless": rep["stateless"],
+                 "faultstore": bool(rep.get("faultstore")), "ops": rep["ops"]}]
     else:
         # 1. design: exhaustive model check + witnesses (runs while the graphs are generated)
         with ThreadPoolExecutor(max_workers=1) as bg:
@@ -222,11 +232,14 @@ def run(tier, seed, replay):
                 if tier == "quick" else
                 (lambda: cover_histories(v, "HttpSess_cover.cfg", 3, False, seed, True, "cover.")),
                 lambda: cover_histories(v, "HttpSess_cover_stateless.cfg", 0, True, seed, True, "stateless."),
+                lambda: cover_histories(v, "HttpSess_cover_fault.cfg", 3, False, seed, True, "fault.", fault=True),
                 lambda: sim_histories(v, cfg_with("HttpSess_gen.cfg"), 3, False, nsim, 35, seed, "sim."),
                 lambda: sim_histories(v, cfg_with("HttpSess_gen.cfg", T=0), 0, False, max(20, nsim // 10), 25, seed + 1, "sim0."),
                 lambda: sim_histories(v, cfg_with("HttpSess_gen.cfg", T=2, MaxSess=2), 2, False, max(40, nsim // 4), 40, seed + 2, "sim2."),
+                lambda: sim_histories(v, cfg_with("HttpSess_gen.cfg", StoreModes='{"nopurge"}'), 3, False, nsim // 4, 35, seed + 3, "simf.", fault=True),
+                lambda: sim_histories(v, cfg_with("HttpSess_gen.cfg", T=2, StoreModes='{"nopurge", "down"}'), 2, False, nsim // 4, 35, seed + 4, "simd.", fault=True),
             ]
-            with ThreadPoolExecutor(max_workers=5) as ex:
+            with ThreadPoolExecutor(max_workers=6) as ex:
                 rows = [r for part in ex.map(lambda g: g(), gens) for r in part]
             lap("generate")
             fut.result()
@@ -276,7 +289,8 @@ def run(tier, seed, replay):
             h = by_id.get(crashed, {})
             v.violation("NoPanic:%s" % re.sub(r"0x[0-9a-f]+|\d+", "N", lines[0])[:80],
                         "the harness process died while replaying history %s: %s" % (crashed, lines[0]),
-                        {"timeout": h.get("timeout"), "stateless": h.get("stateless"), "ops": h.get("ops"), "output": gout[-2500:]})
+                        {"timeout": h.get("timeout"), "stateless": h.get("stateless"), "faultstore": bool(h.get("faultstore")),
+                         "ops": h.get("ops"), "output": gout[-2500:]})
             tr = [t for t in tr if t[0] != crashed]  # judge the complete traces only
             v.cov["histories_not_replayed"] = v.cov.get("histories_not_replayed", 0) + len(shards[i]) - len(tr)
         obs_rows += [r for (_, _, trows) in tr for r in trows]
@@ -301,8 +315,9 @@ def run(tier, seed, replay):
     v.cov["response_classes_seen"] = sorted("%s/%s/%d" % c for c in classes)
     v.cov["tie_steps"] = sum(1 for r in obs_rows if r.get("pre"))
     v.cov["rule"] = ("histories = transition cover of the TLC state graph of the settled session-table model (quick: every "
-                     "state-changing edge + a seeded sample of the self-loop edges; thorough: every edge) + stateless cover + "
-                     "TLC-simulated behaviours of the full model (incl. requests at exactly the idle deadline); distinct by "
+                     "state-changing edge + a seeded sample of the self-loop edges; thorough: every edge) + stateless cover + every "
+                     "edge of the graph of one session x EventStore fault mode (up / nopurge / down) + "
+                     "TLC-simulated behaviours of the full model (incl. requests at exactly the idle deadline; without and with store faults); distinct by "
                      "operation sequence and configuration; non-trivial = a session was terminated or a request was refused "
                      "with 403/404/405")
     for tid, start, trows in traces[:2]:
@@ -400,7 +415,8 @@ def run(tier, seed, replay):
         v.violation(abstract_sig(f["monfail"], e),
                     "monitor %s failed at step %d of trace %s (timeout=%s stateless=%s): %s"
                     % (f["monfail"], upto, tid, trows[0].get("timeout"), trows[0].get("stateless"), json.dumps(brief(e))[:400]),
-                    {"timeout": trows[0].get("timeout"), "stateless": trows[0].get("stateless"), "ops": ops[:cut],
+                    {"timeout": trows[0].get("timeout"), "stateless": trows[0].get("stateless"),
+                     "faultstore": bool(h.get("faultstore")), "ops": ops[:cut],
                      "last_steps": [brief(r) for r in trows[max(1, upto - 5):upto + 1]]})
 
     strict_ok = 0
